@@ -196,9 +196,11 @@ PROPS = {
                         "ECDSA / BLS proof-of-possession verification and the bech32 address encoding are parameters of the model (oracles stated by the harness from the real libraries)"],
     },
     "C08": {
-        "module": "GoatProofs.C08", "facts": True,
+        "module": ["GoatProofs.C08", "GoatProofs.C08P"], "facts": True,
         "theorems": ["Goat.C08.verifyDequeue_exact", "Goat.C08.processProposal_exact", "Goat.C08.accepted_wellformed", "Goat.C08.honest_accepted",
-                     "Goat.C08.due_cap", "Goat.C08.no_conflicting_access"],
+                     "Goat.C08.due_cap", "Goat.C08.no_conflicting_access",
+                     "Goat.C08P.walk_spec", "Goat.C08P.select_le", "Goat.C08P.select_length", "Goat.C08P.prepared_size", "Goat.C08P.prepared_accepted",
+                     "Goat.C08P.full_proposal_has_16"],
         "race": {"stream": "app-proposal", "quick": 250, "thorough": 2500, "seeds": 4},
         "streams": [{"name": "app-proposal", "quick": 900, "thorough": 6000, "seeds": 12},
                     {"name": "app-proposal-shared", "quick": 400, "thorough": 2500, "seeds": 6}],
